@@ -1,46 +1,294 @@
+/-
+  Driver.Ops — the operations of the line protocol (interpretation F of the model).
+  Inputs: floats as decimal u64 bit patterns, naturals, `-` for an absent optional.
+  Outputs: `f<bits>` for floats, plain integers, `T`/`F`, small error enums `err:<kind>`.
+-/
 import BC.Num
 import BC.Gen.Units
+import BC.Gen.Tables
+import BC.Model.Drag
+import BC.Model.Conv
+import BC.Model.Ammo
+import BC.Model.Sight
+import BC.Model.Quantity
+import BC.Model.Lookup
+import BC.Model.Danger
+import BC.Model.MultiBC
 
 namespace Driver
-open BC BC.Gen
+open BC BC.Gen BC.Model
 
-def fl (s : String) : Option Float := s.toNat?.map ofBitsNat
+/-! ### token parser -/
+
+abbrev P := StateT (List String) Option
+
+def tok : P String := do
+  match (← get) with
+  | [] => failure
+  | t :: ts => set ts; pure t
+
+def pNat : P Nat := do
+  let t ← tok
+  match t.toNat? with
+  | some n => pure n
+  | none => failure
+
+def pF : P Float := do pure (ofBitsNat (← pNat))
+
+/-- optional float: `-` = absent -/
+def pOptF : P (Option Float) := do
+  let t ← tok
+  if t == "-" then pure none else
+  match t.toNat? with
+  | some n => pure (some (ofBitsNat n))
+  | none => failure
+
+def pList {β : Type} (p : P β) : P (List β) := do
+  let n ← pNat
+  let rec go : Nat → List β → P (List β)
+    | 0, acc => pure acc.reverse
+    | k + 1, acc => do let x ← p; go k (x :: acc)
+  go n []
+
+def pUnit : P U := do
+  let c ← pNat
+  match U.all.find? (fun u => u.code == c) with
+  | some u => pure u
+  | none => failure
+
+def pDim : P Dim := do
+  match Dim.all[(← pNat)]? with
+  | some d => pure d
+  | none => failure
+
+def pEnd : P Unit := do
+  match (← get) with
+  | [] => pure ()
+  | _ => failure
+
+def runP (p : P String) (args : List String) : String :=
+  match (do let r ← p; pEnd; pure r).run args with
+  | some (s, _) => s
+  | none => "err:parse"
+
 def outF (x : Float) : String := "f" ++ fbits x
 def outFs (xs : List Float) : String := " ".intercalate (xs.map outF)
-
-def unitOfCode (c : Nat) : Option U := U.all.find? (fun u => u.code == c)
-def dimOfIdx (i : Nat) : Option Dim := Dim.all[i]?
+def outB (b : Bool) : String := if b then "T" else "F"
+def outI (i : Int) : String := toString i
 
 def optF : Option Float → String
   | some x => "ok " ++ outF x
   | none => "err:unitconv"
 
-/-- `toraw dim unit bits`, `fromraw dim unit bits`, `conv dim u v bits` -/
-def opUnits (op : String) (args : List String) : String :=
-  match op, args with
-  | "toraw", [d, u, x] =>
-    match d.toNat? >>= dimOfIdx, u.toNat? >>= unitOfCode, fl x with
-    | some d, some u, some x => optF (toRaw d x u)
-    | _, _, _ => "err:parse"
-  | "fromraw", [d, u, x] =>
-    match d.toNat? >>= dimOfIdx, u.toNat? >>= unitOfCode, fl x with
-    | some d, some u, some x => optF (fromRaw d x u)
-    | _, _, _ => "err:parse"
-  | "conv", [d, u, v, x] =>
-    match d.toNat? >>= dimOfIdx, u.toNat? >>= unitOfCode, v.toNat? >>= unitOfCode, fl x with
-    | some d, some u, some v, some x => optF ((toRaw d x u).bind fun r => fromRaw d r v)
-    | _, _, _, _ => "err:parse"
-  | "udim", [u] =>
-    match u.toNat? >>= unitOfCode with
-    | some u => match U.dim u with
-      | some d => "ok " ++ toString (Dim.all.findIdx (· == d))
-      | none => "err:unittype"
-    | none => "err:parse"
-  | _, _ => "err:badop"
+/-! ### units -/
 
-def dispatch (op : String) (args : List String) : String :=
-  match op with
-  | "toraw" | "fromraw" | "conv" | "udim" => opUnits op args
-  | _ => "err:badop"
+def opToRaw : P String := do
+  let d ← pDim; let u ← pUnit; let x ← pF
+  pure (optF (toRaw d x u))
+
+def opFromRaw : P String := do
+  let d ← pDim; let u ← pUnit; let x ← pF
+  pure (optF (fromRaw d x u))
+
+def opConv : P String := do
+  let d ← pDim; let u ← pUnit; let v ← pUnit; let x ← pF
+  pure (optF ((toRaw d x u).bind fun r => fromRaw d r v))
+
+def opUDim : P String := do
+  let u ← pUnit
+  pure (match U.dim u with
+    | some d => "ok " ++ toString (Dim.all.findIdx (· == d))
+    | none => "err:unittype")
+
+/-! ### quantities (C13) -/
+
+def pCmp : P Cmp := do
+  match (← tok) with
+  | "eq" => pure .eq | "ne" => pure .ne | "lt" => pure .lt
+  | "le" => pure .le | "gt" => pure .gt | "ge" => pure .ge
+  | _ => failure
+
+def pQ : P (Q Float) := do
+  let d ← pDim; let v ← pF; let u ← pUnit
+  pure ⟨d, v, u⟩
+
+def pQOp : P (QOp Float) := do
+  match (← tok) with
+  | "c" => do let i ← pNat; let u ← pUnit; pure (.convert i u)
+  | "g" => do let i ← pNat; let u ← pUnit; pure (.getIn i u)
+  | "v" => do pure (.unitValue (← pNat))
+  | "r" => do pure (.rawValue (← pNat))
+  | "s" => do pure (.str (← pNat))
+  | "q" => do let op ← pCmp; let i ← pNat; let j ← pNat; pure (.cmpQ op i j)
+  | "n" => do let op ← pCmp; let i ← pNat; let x ← pF; pure (.cmpN op i x)
+  | "h" => do let i ← pNat; let j ← pNat; pure (.hash i j)
+  | "u" => do pure (.units (← pNat))
+  | _ => failure
+
+def outQ : QOut Float → String
+  | .num x => outF x
+  | .bool b => outB b
+  | .unit u => "u" ++ toString u.code
+  | .ok => "ok"
+  | .errUnitConv => "E"
+  | .errIndex => "X"
+
+def opQops : P String := do
+  let h ← pList pQ
+  let ops ← pList pQOp
+  let (h', outs) := qrun h ops
+  pure (" ".intercalate (outs.map outQ) ++ " | " ++
+    " ".intercalate (h'.map fun q => outF q.value ++ " u" ++ toString q.units.code))
+
+/-! ### ammunition (C17) -/
+
+def pBool : P Bool := do
+  match (← tok) with
+  | "T" => pure true
+  | "F" => pure false
+  | _ => failure
+
+def opAmmoV : P String := do
+  let mv ← pF; let pt ← pF; let md ← pF; let use ← pBool; let t ← pF
+  pure (outF (velocityForTemp ⟨mv, pt, md, use⟩ t))
+
+def opAmmoCal : P String := do
+  let mv ← pF; let pt ← pF; let v1 ← pF; let t1 ← pF
+  pure (match calcPowderSens ⟨mv, pt, 0.0, false⟩ v1 t1 with
+    | .ok m => "ok " ++ outF m
+    | .error .value => "err:value"
+    | .error .zeroDiv => "err:zerodiv")
+
+/-! ### sight (C19) -/
+
+def pFP : P (Option FocalPlane) := do
+  match (← tok) with
+  | "FFP" => pure (some .FFP) | "SFP" => pure (some .SFP) | "LWIR" => pure (some .LWIR)
+  | _ => pure none
+
+def sightErr : SightErr → String
+  | .wrongFocalPlane => "err:focalplane"
+  | .scaleRequired => "err:scale"
+  | .clickType => "err:clicktype"
+  | .clickNonPositive => "err:clickpos"
+
+def opSightNew : P String := do
+  let fp ← pFP; let sc ← pOptF; let sc1 ← pF; let h ← pOptF; let v ← pOptF
+  pure (match Sight.new fp sc sc1 h v with
+    | .ok s => "ok " ++ outFs [s.scale, s.hClick, s.vClick]
+    | .error e => sightErr e)
+
+def opSightAdj : P String := do
+  let fp ← pFP; let sc ← pF; let h ← pF; let v ← pF
+  let td ← pF; let drop ← pF; let wind ← pF; let mag ← pF
+  match fp with
+  | none => pure "err:focalplane"
+  | some fp =>
+    let r := (⟨fp, sc, h, v⟩ : Sight Float).adjustment td drop wind mag
+    pure (outFs [r.1, r.2])
+
+/-! ### look-ups (C20) and danger space (C16) -/
+
+def arrFn (a : Array Float) : Nat → Float := fun i => a.getD i 0.0
+
+def opLkDist : P String := do
+  let d ← pF; let xs ← pList pF
+  let a := xs.toArray
+  pure (outI (findIndexForDistance a.size (arrFn a) d) ++ " " ++ outI (indexAtDistance a.size (arrFn a) d))
+
+def opLkTStrict : P String := do
+  let t ← pF; let xs ← pList pF
+  let a := xs.toArray
+  pure (outI (findIndexForTimeStrict a.size (arrFn a) t))
+
+def opLkTNear : P String := do
+  let t ← pF; let dev ← pF; let xs ← pList pF
+  let a := xs.toArray
+  pure (outI (findIndexForTimeNearest a.size (arrFn a) t dev))
+
+def opLkApex : P String := do
+  let xs ← pList pF
+  let a := xs.toArray
+  pure (outI (apexIndex a.size (arrFn a)))
+
+def opDanger : P String := do
+  let atR ← pF; let hgt ← pF
+  let rows ← pList (do let d ← pF; let p ← pF; pure (d, p))
+  let a := rows.toArray
+  pure (match dangerSpace a.size (fun i => (a.getD i (0.0, 0.0)).1) (fun i => (a.getD i (0.0, 0.0)).2) atR hgt with
+    | some r => s!"ok {r.at_} {r.begin_} {r.end_}"
+    | none => "err:arith")
+
+/-! ### multi-BC (C14) -/
+
+def pPair : P (Float × Float) := do let a ← pF; let b ← pF; pure (a, b)
+
+def opInterp : P String := do
+  let xi ← pF
+  let pts ← pList pPair
+  let a := pts.toArray
+  pure (outF (linInterp a.size (fun i => (a.getD i (0.0, 0.0)).1) (fun i => (a.getD i (0.0, 0.0)).2) xi))
+
+def opBCPoint : P String := do
+  let bc ← pF; let m ← pOptF; let v ← pOptF
+  pure (match bcPoint bc m v with
+    | .ok (b, m) => "ok " ++ outFs [b, m]
+    | .error .bcNonPositive => "err:bc"
+    | .error .bothGiven => "err:both"
+    | .error .noneGiven => "err:none")
+
+def opMbc : P String := do
+  let bc ← pF
+  let pts ← pList pPair      -- (BC, Mach)
+  let table ← pList pPair    -- (Mach, CD)
+  pure (outFs ((multiBCTable pts table bc).map (·.2)))
+
+def opSecDens : P String := do
+  let w ← pF; let d ← pF
+  pure (outF (sectionalDensity w d))
+
+/-! ### drag curve (C09) -/
+
+def opCd : P String := do
+  let table ← pList pPair
+  let qs ← pList pF
+  match DragTable.build table.toArray with
+  | none => pure "err:index"
+  | some t => pure (outFs (qs.map t.cd))
+
+def opCurve : P String := do
+  let table ← pList pPair
+  match DragTable.build table.toArray with
+  | none => pure "err:index"
+  | some t => pure (outFs (t.curve.toList.flatMap fun c => [c.a, c.b, c.c]))
+
+def opDbm : P String := do
+  let bc ← pF
+  let table ← pList pPair
+  let qs ← pList pF
+  match DragTable.build table.toArray with
+  | none => pure "err:index"
+  | some t => pure (outFs (qs.map (t.dragByMach bc)))
+
+def shippedTable (name : String) : Option (List (Float × Float)) :=
+  match name with
+  | "TableG1" => some TableG1 | "TableG7" => some TableG7 | "TableG2" => some TableG2
+  | "TableG5" => some TableG5 | "TableG6" => some TableG6 | "TableG8" => some TableG8
+  | "TableGI" => some TableGI | "TableGS" => some TableGS | "TableRA4" => some TableRA4
+  | _ => none
+
+/-- the regenerated table itself, as bits (validates the tables translator) -/
+def opTable : P String := do
+  match shippedTable (← tok) with
+  | some t => pure (outFs (t.flatMap fun r => [r.1, r.2]))
+  | none => pure "err:notable"
+
+def table : List (String × P String) := [
+  ("toraw", opToRaw), ("fromraw", opFromRaw), ("conv", opConv), ("udim", opUDim),
+  ("qops", opQops), ("ammo_v", opAmmoV), ("ammo_cal", opAmmoCal),
+  ("sight_new", opSightNew), ("sight_adj", opSightAdj),
+  ("lk_dist", opLkDist), ("lk_tstrict", opLkTStrict), ("lk_tnear", opLkTNear), ("lk_apex", opLkApex),
+  ("danger", opDanger), ("interp", opInterp), ("bcpoint", opBCPoint), ("mbc", opMbc), ("secdens", opSecDens),
+  ("cd", opCd), ("curve", opCurve), ("dbm", opDbm), ("table", opTable)]
 
 end Driver
